@@ -918,4 +918,73 @@ Section NInv.
           destruct HX as [[<-|HX]|[<-|[]]];
             [apply (li_Ddlog s HL)|eapply (li_Dimg s HL); exact HX|apply (li_Dlog s HL)].
   Qed.
+  Lemma Seq_set_ln s n x' q :
+    Seq (set_ln s n x') q = if q =? n then (l_dlog x' :: l_imgs x') ++ [l_log x'] else Seq s q.
+  Proof. unfold Seq. cbn. destruct (q =? n); reflexivity. Qed.
+
+  (* election-layer rules other than BecomeLeader *)
+  Lemma NInv_step_el s l0 s' : lreachable s -> NInv s -> lrule (LEl l0) s = Some s' ->
+    (forall c, l0 <> LBecomeLeader c) -> NInv s'.
+  Proof.
+    intros Hr HN H Hnb.
+    pose proof (lreachable_LInv inc out inc_nonempty Hmulti s Hr) as HL.
+    pose proof (lreachable_EInv inc out inc_nonempty Hmulti s Hr) as HE.
+    pose proof (reachable_Inv inc out _ (lreachable_el _ _ _ Hr)) as HIe.
+    assert (HB : forall T k, Block s T k -> Block s' T k) by (intros; eapply Block_step; eassumption).
+    destruct (lel_inv _ _ _ _ _ H) as (e' & He & Hel & Hs).
+    pose proof (fun q c t => Vote_step inc out (el s) l0 e' q c t HIe He) as HVs.
+    destruct l0 as [n|n|n|n t|n c t|n t|n t|c n|c|n t|n|n|n];
+      try (subst s'; apply (NInv_transfer s _ HN); [reflexivity|exact HB| | | |];
+           [intros T k q c0 t0 Ho Ht HP HV Hc0; left; split; [exact HP|]; split; [|reflexivity];
+            destruct (HVs q c0 t0 HV Hc0) as [V|[E|[E _]]]; [exact V|discriminate E|discriminate E]
+           |intros; left; split; [assumption|reflexivity]
+           |intros; left; split; [assumption|reflexivity]
+           |intros T k q Ho; apply (n_seq s HN T k q Ho)]).
+    - (* campaign *)
+      destruct (campaign_inv _ _ _ _ _ He) as (_ & Hn0 & Ee).
+      assert (Et : p_term (nodes e' n) = p_term (nodes (el s) n) + 1)
+        by (rewrite Ee; cbn; rewrite N.eqb_refl; reflexivity).
+      subst s'. apply (NInv_transfer s _ HN); [reflexivity|exact HB| | | |].
+      + intros T k q c0 t0 Ho Ht HP HV Hc0. change (promised s q T k) in HP.
+        cbn [set_clog set_el clog el].
+        destruct (HVs q c0 t0 HV Hc0) as [V|[E|(E & -> & ->)]]; [|discriminate E|].
+        * left. split; [exact HP|]. split; [exact V|].
+          destruct ((c0 =? n) && (t0 =? p_term (nodes e' n))) eqn:Eb; [exfalso|reflexivity].
+          apply andb_prop in Eb. destruct Eb as [E1 E2]. apply N.eqb_eq in E1, E2. subst c0 t0.
+          pose proof (Vote_term_le inc out _ _ _ _ HIe V) as Hle.
+          destruct (N.eq_dec q n) as [->|Hne]; [lia|].
+          pose proof (Vote_other inc out _ _ _ _ HIe V Hc0 Hne) as Hv.
+          pose proof (voted_le_dterm inc out _ _ _ _ HIe Hv). pose proof (dterm_le_term inc out (el s) n HIe). lia.
+        * inversion E; subst q. right. rewrite <- Et, !N.eqb_refl. cbn.
+          apply (promised_log s T k n HN Ho HP).
+      + intros; left; split; [assumption|reflexivity].
+      + intros; left; split; [assumption|reflexivity].
+      + intros T k q Ho; apply (n_seq s HN T k q Ho).
+    - (* grant *)
+      destruct Hs as [-> Hup]. apply (NInv_transfer s _ HN); [reflexivity|exact HB| | | |].
+      + intros T k q c0 t0 Ho Ht HP HV Hc0. change (promised s q T k) in HP.
+        destruct (HVs q c0 t0 HV Hc0) as [V|[E|[E _]]]; [left; auto| |discriminate E].
+        inversion E; subst q c0 t0. right. cbn [set_el clog].
+        destruct (promised_log s T k n HN Ho HP) as [Ha|Hb]; [|right; exact Hb].
+        apply up_to_date_agree with (t := t) (V := l_log (ln s n)); try assumption.
+        * apply (e_sorted s HE).
+        * apply (li_Dclog s HL).
+        * apply (li_Dlog s HL).
+        * apply (e_clog s HE).
+        * intros u Hu1 Hu2 Hne. apply (n_lead s HN T k u Ho Hu1 Hne).
+      + intros; left; split; [assumption|reflexivity].
+      + intros; left; split; [assumption|reflexivity].
+      + intros T k q Ho; apply (n_seq s HN T k q Ho).
+    - exfalso. eapply Hnb. reflexivity.
+    - (* crash *)
+      subst s'. apply (NInv_transfer s _ HN); [reflexivity|exact HB| | | |].
+      + intros T k q c0 t0 Ho Ht HP HV Hc0. left. split; [|split; [|reflexivity]].
+        * destruct HP as [HP|(i & Hi & HP)]; [left; exact HP|right]. exists i. split; [exact Hi|].
+          cbn in HP. destruct (q =? n); [destruct HP|exact HP].
+        * destruct (HVs q c0 t0 HV Hc0) as [V|[E|[E _]]]; [exact V|discriminate E|discriminate E].
+      + intros T k q i Ho Hi Hin. left. cbn in Hin |- *. destruct (q =? n); [destruct Hin|]. auto.
+      + intros T k q Ho Hk. left. split; [exact Hk|]. cbn. destruct (N.eqb_spec q n) as [->|]; reflexivity.
+      + intros T k q Ho. rewrite Seq_set_ln. destruct (q =? n); [|apply (n_seq s HN T k q Ho)].
+        cbn. split; [intros Ha Y [<-|[]]; left; exact Ha|]. split; [intros _ Y []|exact I].
+  Qed.
 End NInv.
